@@ -213,4 +213,22 @@ def testTip (n : Node D) (pred : Node D → Bool) : Bool :=
 def findBadNodes (g : G D) (pred : Node D → Bool) : List Nat :=
   (List.range g.nodes.length).filter fun i => match g.nodes[i]? with | some n => testTip n pred | none => false
 
+/-- a node that is a single k-mer equal to its own reverse complement (`is_compressed` tests this regardless of strandedness) -/
+def palSingle (g : G D) (n : Node D) : Bool := n.seq.length == g.K && Compress.isPalindrome (n.seq.take g.K)
+
+/-- one probe of `is_compressed`: node `i`, side `dir` -/
+def isCompressedAt (g : G D) (join : D → D → Bool) (i : Nat) (dir : Dir) : Option (Nat × Nat) :=
+  match g.nodes[i]?, findEdges g i dir with
+  | some n, some [e] =>
+    match g.nodes[e.1]?, findEdges g e.1 e.2.1 with
+    | some nx, some [_] =>
+      if palSingle g n || palSingle g nx || i == e.1 then none
+      else if join n.data nx.data then some (i, e.1) else none
+    | _, _ => none
+  | _, _ => none
+
+/-- `is_compressed(spec)`: the first pair of nodes joined by an unbranched edge the spec would merge, if any -/
+def isCompressed (g : G D) (join : D → D → Bool) : Option (Nat × Nat) :=
+  (List.range g.nodes.length).findSome? fun i => [Dir.L, Dir.R].findSome? fun dir => isCompressedAt g join i dir
+
 end Graph
